@@ -230,12 +230,16 @@ def validate_shards(shards, scratch, module="Trace.tla", cfg="Trace.cfg", timeou
         r = run_tlc(module, cfg, scratch, workers=1, env={"TRACE_FILE": path}, timeout=timeout)
         vs = parse_tagged(r["out"], "V")
         st = tlc_stats(r["out"])
+        stats["states"] += st["distinct"]
+        stats["transitions"] += st["generated"]
         if len(vs) != n or not st["ok"]:
             return path, vs, (f"TLC consumed {len(vs)} of {n} events of {path}\n"
                               + tlc_error_summary(r["out"], 40))
         return path, vs, None
 
     verdicts, problems = [], []
+    stats = {"states": 0, "transitions": 0}
+    validate_shards.last_stats = stats
     with ThreadPoolExecutor(NCPU) as ex:
         for path, vs, prob in ex.map(one, shards):
             for v in vs:
@@ -335,6 +339,10 @@ class Check:
         shards, st = replay_programs(programs, sub, env=env)
         verdicts, problems = validate_shards(shards, sub)
         self.problems += problems
+        ts = validate_shards.last_stats
+        self.cov["trace_states"] = self.cov.get("trace_states", 0) + ts["states"]
+        self.cov["states"] += ts["states"]
+        self.cov["transitions"] += ts["transitions"]
         self.cov["programs"] += st["programs"]
         self.cov["out_of_range_skipped"] += st["out_of_range"]
         self.cov["events_validated"] += len(verdicts)
@@ -387,6 +395,9 @@ class Check:
         wall = time.time() - self.t0
         cov = self.cov
         cov["rule"] = cov.get("rule", "")
+        cov["states_note"] = ("states/transitions = distinct states / states generated reported by TLC, summed over the model "
+                              "instances (coverage.models) and the trace-validation runs (coverage.trace_states: one state per "
+                              "validated event plus the initial state of each shard)")
         ev = {"property_id": self.pid, "tier": self.tier, "seed": self.seed, "level": self.level,
               "coverage": cov, "assumptions": self.assumptions, "wall_s": round(wall, 2),
               "violations": len(self.violations), "known_findings": self.known}
